@@ -24,31 +24,62 @@ open PPrint
 kernel whenever the source changes) -/
 theorem consts_ok : jsonConsts.ok = true ∧ pyConsts.ok = true := by decide
 
-/-- The domain is a test: `wfB` decides `WF`. The driver evaluates it on every request and refuses
-values outside the domain, so every value of the correspondence run satisfies the hypothesis of the
-theorems below. -/
-theorem wf_checked (v : J) : wfB v = true ↔ WF v := wfB_iff v
+/-- The domain is a test: `wfB` decides `WF` (for both modes). The driver evaluates it on every
+request and refuses values outside the domain, so every value of the correspondence run satisfies
+the hypothesis of the theorems below. -/
+theorem wf_checked (sk : Bool) (v : J) : wfB sk v = true ↔ WF sk v := wfB_iff sk v
+
+/-- a value of the JSON-mode domain (string keys only) is in the Python-mode domain -/
+theorem json_domain_in_python_domain (v : J) (h : WF true v) : WF false v := by
+  have key : ∀ k, keyOk true k = true → keyOk false k = true := by
+    intro k hk; cases k <;> simp_all [keyOk]
+  induction v using J.ind with
+  | hs s => simpa [WF] using h
+  | hi n => simp [WF]
+  | hn t => simpa [WF] using h
+  | hk k => simp [WF]
+  | hl xs ih =>
+    have h' := (WFList_iff true xs).mp (by simpa [WF] using h)
+    simp only [WF, WFList_iff]
+    exact fun x hx => ih x hx (h' x hx)
+  | hd kvs ih =>
+    have h' := (WFEntries_iff true kvs).mp (by simpa [WF] using h)
+    simp only [WF, WFEntries_iff]
+    exact fun e he => ⟨key _ (h' e he).1, ih e he (h' e he).2⟩
 
 /-- Nothing is lost, duplicated or reordered, in any layout: the tokens of the printed text are
 exactly the tokens of `norm v` — every element of every container once, in order, one comma
 between neighbours, every key followed by its colon and its value. Covers the one-line, the
-wrapped and the one-item-per-line layouts and every combination of them under nesting. -/
-theorem no_loss (L : Limits) (v : J) (off : Nat) (h : WF v) :
-    lex jsonConsts (text (gen jsonConsts L v off)) = some (toks (norm v)) ∧
-    lex pyConsts (text (gen pyConsts L v off)) = some (toks (norm v)) := by
+wrapped and the one-item-per-line layouts and every combination of them under nesting.
+JSON mode: values with string keys; Python mode: also int and `True`/`False`/`None` keys. -/
+theorem no_loss (L : Limits) (v : J) (off : Nat) :
+    (WF true v → lex jsonConsts (text (gen jsonConsts L v off)) = some (toks (norm v))) ∧
+    (WF false v → lex pyConsts (text (gen pyConsts L v off)) = some (toks (norm v))) := by
   constructor
-  · have := lex_gen jsonConsts consts_ok.1 L v h off [] Delim_nil
+  · intro h
+    have := lex_gen jsonConsts consts_ok.1 L v h off [] Delim_nil
     simpa [lex, lexGo, finish] using this
-  · have := lex_gen pyConsts consts_ok.2 L v h off [] Delim_nil
+  · intro h
+    have := lex_gen pyConsts consts_ok.2 L v h off [] Delim_nil
     simpa [lex, lexGo, finish] using this
 
-/-- Round trip: the JSON-mode text read with the JSON keywords, and the Python-mode text read with
-the Python keywords, give the value back (dict entries in sorted key order). -/
-theorem read_render (L : Limits) (v : J) (off : Nat) (h : WF v) :
-    read jsonConsts (text (gen jsonConsts L v off)) = some (norm v) ∧
-    read pyConsts (text (gen pyConsts L v off)) = some (norm v) := by
-  obtain ⟨h1, h2⟩ := no_loss L v off h
-  simp [PPrint.read, h1, h2, parse_toks]
+/-- Round trip: the JSON-mode text read with the JSON reader (JSON keywords, string keys only), and
+the Python-mode text read with the Python keywords, give the value back (dict entries in the
+printer's key order). -/
+theorem read_render (L : Limits) (v : J) (off : Nat) :
+    (WF true v → read jsonConsts (text (gen jsonConsts L v off)) = some (norm v)) ∧
+    (WF false v → read pyConsts (text (gen pyConsts L v off)) = some (norm v)) := by
+  constructor
+  · intro h
+    have h1 := (no_loss L v off).1 h
+    have := parse_toks true (norm v) (WF_norm true v h)
+    rw [PPrint.read, h1]
+    exact this
+  · intro h
+    have h1 := (no_loss L v off).2 h
+    have := parse_toks false (norm v) (WF_norm false v h)
+    rw [PPrint.read, h1]
+    exact this
 
 /-- Ints are inside the model: an int is printed as `showInt n` (decimal digits, `-` for negatives,
 no leading zero — what `str(int)` gives; compared with the real printer in the correspondence), this
@@ -57,18 +88,32 @@ theorem int_text (L : Limits) (n : Int) (off : Nat) :
     text (gen jsonConsts L (.int n) off) = showInt n ∧ text (gen pyConsts L (.int n) off) = showInt n ∧
     numOk (showInt n) = true ∧
     read jsonConsts (showInt n) = some (.int n) ∧ read pyConsts (showInt n) = some (.int n) := by
-  have h := read_render L (.int n) off (by simp [WF])
+  have h := read_render L (.int n) off
   have e1 : text (gen jsonConsts L (.int n) off) = showInt n := by simp [gen, simpleChunk]
   have e2 : text (gen pyConsts L (.int n) off) = showInt n := by simp [gen, simpleChunk]
   rw [e1, e2] at h
-  exact ⟨e1, e2, numOk_showInt n, by simpa [norm] using h.1, by simpa [norm] using h.2⟩
+  exact ⟨e1, e2, numOk_showInt n, by simpa [norm] using h.1 (by simp [WF]),
+    by simpa [norm] using h.2 (by simp [WF])⟩
 
 /-- `norm v` is the same value: equal up to the order of the entries of dicts (what Python's `==`
 compares) -/
 theorem norm_perm (v : J) : Eqv v (norm v) := norm_eqv v
 
+/-- The key order of the printer (`kLt`, the model of `_mk_type_sort_value`), spelled out: int keys
+come first, by value; then string keys, by code point (`keyLt`); then the keyword keys in the order
+`False`, `None`, `True` (their names). -/
+theorem key_order :
+    (∀ a b : Int, kLt (.int a) (.int b) = decide (a < b)) ∧
+    (∀ s t, kLt (.str s) (.str t) = keyLt s t) ∧
+    (∀ n s, kLt (.int n) (.str s) = true ∧ kLt (.str s) (.int n) = false) ∧
+    (∀ n k, kLt (.int n) (.kw k) = true ∧ kLt (.kw k) (.int n) = false) ∧
+    (∀ s k, kLt (.str s) (.kw k) = true ∧ kLt (.kw k) (.str s) = false) ∧
+    kLt (.kw .ff) (.kw .nul) = true ∧ kLt (.kw .nul) (.kw .tt) = true ∧ kLt (.kw .ff) (.kw .tt) = true := by
+  refine ⟨fun _ _ => rfl, fun _ _ => rfl, fun _ _ => ⟨rfl, rfl⟩, fun _ _ => ⟨rfl, rfl⟩,
+    fun _ _ => ⟨rfl, rfl⟩, by decide, by decide, by decide⟩
+
 /-- in `norm v` — hence, by `no_loss`, in the printed text — the entries of every dict come in
-strictly increasing code-point order of their keys -/
+strictly increasing key order (`key_order`) -/
 theorem keys_sorted (v : J) (h : DistinctKeys v) : KeysSorted (norm v) := norm_keysSorted v h
 
 /-- The line iteration and the text agree: joining the lines of `_gen_ch_lines` with line feeds is
@@ -88,16 +133,16 @@ theorem lines_own_chunks (a b : List (Option Chunk)) :
   groupLinesGo_split [] a b
 
 /-- … so the text rebuilt from the line iteration reads back as the value too -/
-theorem read_lines (L : Limits) (v : J) (off : Nat) (h : WF v) :
-    read jsonConsts (joinLines (groupLines (gen jsonConsts L v off))) = some (norm v) ∧
-    read pyConsts (joinLines (groupLines (gen pyConsts L v off))) = some (norm v) := by
+theorem read_lines (L : Limits) (v : J) (off : Nat) :
+    (WF true v → read jsonConsts (joinLines (groupLines (gen jsonConsts L v off))) = some (norm v)) ∧
+    (WF false v → read pyConsts (joinLines (groupLines (gen pyConsts L v off))) = some (norm v)) := by
   rw [lines, lines]
-  exact read_render L v off h
+  exact read_render L v off
 
 /-- The model renders the entries of a dict in insertion order and sorts the rendered entries;
 the code sorts the keys and renders in that order. Both give the same list: the rendering of an
 entry depends on its value and the offset only. -/
-theorem sort_then_render (c : Consts) (L : Limits) (kvs : List (List Char × J)) (off : Nat) :
+theorem sort_then_render (c : Consts) (L : Limits) (kvs : List (Key × J)) (off : Nat) :
     sortE (genEntries c L kvs off) = (sortE kvs).map (fun kv => (kv.1, gen c L kv.2 off)) := by
   rw [genEntries_eq, sortE_map (fun kv => gen c L kv.2 off)]
 
@@ -107,7 +152,7 @@ is spread over several lines (contrapositive). -/
 theorem one_line_fits (c : Consts) (L : Limits) (off : Nat) :
     (∀ xs : List J, xs ≠ [] → none ∉ gen c L (.list xs) off →
       off + (text (gen c L (.list xs) off)).length < L.oneLineList) ∧
-    (∀ kvs : List (List Char × J), kvs ≠ [] → none ∉ gen c L (.dict kvs) off →
+    (∀ kvs : List (Key × J), kvs ≠ [] → none ∉ gen c L (.dict kvs) off →
       off + (text (gen c L (.dict kvs) off)).length < L.oneLineDict) :=
   ⟨fun xs hne h => list_one_line_fits c L xs off hne h,
    fun kvs hne h => dict_one_line_fits c L kvs off hne h⟩
@@ -117,16 +162,16 @@ the class agrees with the text — a `name` chunk is a quoted key, a `number` ch
 (JSON grammar), a `keyword` chunk is one of the three literals of the mode; brackets, separators,
 indentation and strings are `text`. (Colours never take part in `text`, which reads `Chunk.text`
 only.) -/
-theorem chunk_classes (c : Consts) (L : Limits) (v : J) (off : Nat) (h : WF v) :
+theorem chunk_classes (c : Consts) (L : Limits) (sk : Bool) (v : J) (off : Nat) (h : WF sk v) :
     ∀ ch, some ch ∈ gen c L v off → ChunkOk c ch :=
-  gen_chunkOk c L v h off
+  gen_chunkOk c L sk v h off
 
 /-- The reader is a function on texts and reads the canonical tokens of every value back, so two
 values with the same printed text have the same `norm` (the text determines the value). -/
-theorem text_determines_value (L : Limits) (v w : J) (off off' : Nat) (hv : WF v) (hw : WF w)
-    (h : text (gen jsonConsts L v off) = text (gen jsonConsts L w off')) : norm v = norm w := by
-  have a := (read_render L v off hv).1
-  have b := (read_render L w off' hw).1
+theorem text_determines_value (L : Limits) (v w : J) (off off' : Nat) (hv : WF false v) (hw : WF false w)
+    (h : text (gen pyConsts L v off) = text (gen pyConsts L w off')) : norm v = norm w := by
+  have a := (read_render L v off).2 hv
+  have b := (read_render L w off' ).2 hw
   rw [h, b] at a
   exact (Option.some.inj a).symm
 
@@ -140,16 +185,38 @@ def limits0 : Limits := ⟨200, 200, 150, 2⟩
 
 /-- a dict (unsorted keys) holding a list that must be wrapped, a nested dict and constants -/
 def sample : J :=
-  .dict [("zz".toList, .list (List.replicate 8 (.str "abcdefghijklmnopqrstuvwxyz0123".toList))),
-         ("b".toList, .dict [("k".toList, .num "-1.5e+22".toList), ("a".toList, .kw .nul),
-                             ("i".toList, .int (-12345678901234567890))]),
-         ("a b".toList, .list [.kw .tt, .list [], .dict [], .list [.kw .ff]])]
+  .dict [(.str "zz".toList, .list (List.replicate 8 (.str "abcdefghijklmnopqrstuvwxyz0123".toList))),
+         (.str "b".toList, .dict [(.str "k".toList, .num "-1.5e+22".toList), (.str "a".toList, .kw .nul),
+                             (.str "i".toList, .int (-12345678901234567890))]),
+         (.str "a b".toList, .list [.kw .tt, .list [], .dict [], .list [.kw .ff]])]
 
-example : WF sample := by
+example : WF true sample := by
   simp only [sample, WF, WFEntries, WFList, List.replicate]
   decide
 
-example : wfB sample = true := by decide +kernel
+example : wfB true sample = true := by decide +kernel
+
+/-- Python mode only: int, string and keyword keys in one dict (insertion order as in the run of the
+real code below) -/
+def samplePy : J :=
+  .dict [(.kw .tt, .str "yes".toList), (.str "a".toList, .int 1), (.int 10, .kw .nul),
+         (.int (-3), .list [.kw .tt, .list [.int 1]]), (.kw .nul, .int 2), (.kw .ff, .int 0),
+         (.str "B".toList, .dict [])]
+
+example : wfB false samplePy = true ∧ wfB true samplePy = false := by decide +kernel
+
+example : DistinctKeys samplePy := by
+  simp only [samplePy, DistinctKeys, DistinctKeysD, DistinctKeysL]
+  decide
+
+/-- the exact Python-mode text of the real printer for `samplePy`: ints, strings, then
+`False` / `None` / `True` -/
+example : text (gen pyConsts limits0 samplePy 0) =
+    "{\n  -3: [\n    True,\n    [1]\n  ],\n  10: None,\n  \"B\": {},\n  \"a\": 1,\n  False: 0,\n  None: 2,\n  True: \"yes\"\n}".toList := by
+  decide +kernel
+
+example : (read pyConsts (text (gen pyConsts limits samplePy 0))).map toks = some (toks (norm samplePy)) := by
+  decide +kernel
 
 example : DistinctKeys sample := by
   simp only [sample, DistinctKeys, DistinctKeysD, DistinctKeysL, List.replicate]
